@@ -731,6 +731,13 @@ func checkC10(w *World, r *Recorder) propInfo {
 	// property) — otherwise re-emitting a token without a profile claim puts
 	// key -75000 / 265 on the wire
 	importRules(w, r, checkC09, "C10-W15", func(o *Oblig) bool { return o.Rule == "C09-I2" })
+	// W16: the value emitted for a claim is the value its setter stored: that
+	// holds for the lifetime of the claims-set only if the stored memory is the
+	// set's own (a flag pointer aimed at a shared package-level variable is
+	// rewritten by a decode into any other set carrying the same pointer, and
+	// every such set then emits the token's value instead of 1)
+	ruleSettersStoreOwnedMemory(w, r, "C10-W16")
+	r.Floor("C10-W16", 20)
 	r.Floor("C10-W1", 26)
 	r.Floor("C10-W3", 26)
 	r.Floor("C10-W4", 1)
